@@ -125,11 +125,21 @@ func (x *Explorer) Run() *HarnessResult {
 	m.S.Restart()
 	q0, t0, e0 := m.S.Queries, m.S.Time, m.S.Errors
 	x.work = [][]Decision{nil}
+	lastProgress := time.Now()
 	for len(x.work) > 0 {
 		if m.cfg.MaxPaths > 0 && x.R.Paths >= m.cfg.MaxPaths {
 			x.R.Truncated = true
 			x.R.BoundHits = append(x.R.BoundHits, fmt.Sprintf("path budget %d reached with %d prefixes pending", m.cfg.MaxPaths, len(x.work)))
 			break
+		}
+		if m.cfg.MaxWall > 0 && time.Since(start).Seconds() > m.cfg.MaxWall {
+			x.R.Truncated = true
+			x.R.BoundHits = append(x.R.BoundHits, fmt.Sprintf("wall budget %.0fs reached after %d paths with %d prefixes pending", m.cfg.MaxWall, x.R.Paths, len(x.work)))
+			break
+		}
+		if os.Getenv("SYMGO_PROGRESS") != "" && time.Since(lastProgress) > 10*time.Second {
+			lastProgress = time.Now()
+			fmt.Fprintf(os.Stderr, "[progress] %s: paths=%d pending=%d queries=%d solver=%.1fs elapsed=%.0fs\n", x.fn.Name(), x.R.Paths, len(x.work), m.S.Queries-q0, (m.S.Time - t0).Seconds(), time.Since(start).Seconds())
 		}
 		prefix := x.work[len(x.work)-1]
 		x.work = x.work[:len(x.work)-1]
